@@ -45,8 +45,8 @@ calls (`super(InheritableSQLObject, ·)` is `SQLObject`):
   returns the instance bound to that connection, built by `_init` (cold instance cache: coherence of the
   cache with the rows is C04/C05), i.e. with `_parent` as the world holds it (None before `get` sets it);
 * `cls.select(where, connection=conn)` / `cls.selectBy(connection=conn, **kw)` : return the list of the instances
-  `.inst k m j` for the ids `j` of `X.ids` (ANY list; the theorems assume: without repetition, exactly the ids
-  the hand model's `selectRow` / `selectByRow` yield `some (.ok m)` for, in the state at hand);
+  `.inst k m j` for the ids `j` of `X.ids` (ANY list, any order, repetitions allowed; the theorems assume: its members
+  are exactly the ids the hand model's `selectRow` / `selectByRow` yield `some (.ok m)` for, in the state at hand);
 * `inst.destroySelf()`, `cls.get(id, connection=…, selectResults=…)`, `cls.get(id, connection=…, childUpdate=True)` :
   the translated programs themselves at the neighbouring level (`Calls`).
 * `while`: at most `T.n + 1` iterations (the class chain is shorter).
